@@ -206,8 +206,17 @@ def main():
             # the data in the representations a user may hand in: complex,
             # real float, integer-valued (int dtype); plain lists are
             # refused by the constructor
-            form = ("complex", "real", "int")[(N + r) % 3]
-            if form == "real":
+            # ... and values as small as they are in internal units, or
+            # nearly (not exactly) real
+            form = ("complex", "real", "int", "tiny", "small-imag")[
+                (N + r) % 5]
+            if form == "tiny":
+                y = y * 1e-9
+                yin = y.copy()
+            elif form == "small-imag":
+                y = numpy.real(y) + 1e-7j * numpy.imag(y)
+                yin = y.copy()
+            elif form == "real":
                 y = numpy.real(y)
                 yin = y.copy()
             elif form == "int":
@@ -221,15 +230,20 @@ def main():
             with ck.guarded("round-trip", "complete", rp, rp):
                 F = DFunction(ta, yin).get_Fourier_transform()
                 want = dsum(ta.data, y, F.axis.data, +1) * dt
-                sc = max(1.0, float(numpy.abs(want).max()))
+                # (errors are measured relative to the size of the data)
+                sc = float(numpy.abs(want).max()) if form in (
+                    "tiny", "small-imag") else max(
+                    1.0, float(numpy.abs(want).max()))
                 e = float(numpy.abs(F.data - want).max()) / sc
                 ck.case("fourier-sum", ("rc", N, r), nontrivial=N > 1)
                 if e > 1e-12:
                     report("fourier-sum", "complete:%s" % (
                         "odd" if N % 2 else "even"), dict(rp, err=e), rp)
                 f2 = F.get_inverse_Fourier_transform()
-                e = float(numpy.abs(f2.data - y).max()) / max(
-                    1.0, float(numpy.abs(y).max()))
+                e = float(numpy.abs(f2.data - y).max()) / (
+                    float(numpy.abs(y).max()) if form in (
+                        "tiny", "small-imag") else max(
+                        1.0, float(numpy.abs(y).max())))
                 ea = float(numpy.abs(f2.axis.data - ta.data).max())
                 ck.case("round-trip", ("rc", N, r), nontrivial=N > 1,
                         sample=dict(N=N, dt=dt, err=e, axis_err=ea))
